@@ -77,6 +77,7 @@ package calendar
 //@   ensures result - (float64(sjdn(solar)) - 0.5 + float64(ssec(solar))/86400.0) <= 1.0/1048576.0
 //@   ensures (float64(sjdn(solar)) - 0.5 + float64(ssec(solar))/86400.0) - result <= 1.0/1048576.0
 //@   ensures implies(solar.hour == 12 && solar.minute == 0 && solar.second == 0, result == float64(sjdn(solar)))
+//@   ensures implies(solar.hour == 0 && solar.minute == 0 && solar.second == 0, result == float64(sjdn(solar)) - 0.5)
 
 //@ func (solar *Solar) GetWeek() int [C04 C15 C20]
 //@   requires inYears(solar.year)
@@ -132,6 +133,69 @@ package calendar
 //@   ensures result.day == ite(result.year == 1582 && result.month == 10, ite(solar.day > 4 && solar.day < 15, solar.day+10, solar.day),
 //@           ite(solar.day > dim(result.year, result.month), dim(result.year, result.month), solar.day))
 //@   ensures result.hour == solar.hour && result.minute == solar.minute && result.second == solar.second
+
+//@ # ---------------------------------------------------------------- C04 lemmas over the contracts above
+//@ spec func sameSolar(a *Solar, b *Solar) bool
+//@   = a.year == b.year && a.month == b.month && a.day == b.day && a.hour == b.hour && a.minute == b.minute && a.second == b.second
+
+//@ # date-time -> Julian Day -> date-time is the identity at one-second resolution
+//@ ghost func jdRoundTrip(s *Solar) [C04]
+//@   requires 1 <= s.year && s.year <= 9998
+//@   body
+//@     jd := s.GetJulianDay()
+//@     r := NewSolarFromJulianDay(jd)
+//@     assert(tsec(r) == tsec(s))
+//@     jdnMono(r.year, r.month, r.day, s.year, s.month, s.day)
+//@     jdnMono(s.year, s.month, s.day, r.year, r.month, r.day)
+//@     assert(sameSolar(r, s))
+
+//@ # stepping composes additively and is undone by the opposite step
+//@ ghost func nextDayAdditive(s *Solar, a int, b int) [C04]
+//@   requires inYears(s.year) && jdnInRange(sjdn(s)+a) && jdnInRange(sjdn(s)+a+b)
+//@   body
+//@     x := s.NextDay(a).NextDay(b)
+//@     y := s.NextDay(a + b)
+//@     jdnMono(x.year, x.month, x.day, y.year, y.month, y.day)
+//@     jdnMono(y.year, y.month, y.day, x.year, x.month, x.day)
+//@     assert(sameSolar(x, y))
+
+//@ ghost func nextDayInverse(s *Solar, n int) [C04]
+//@   requires inYears(s.year) && jdnInRange(sjdn(s)+n)
+//@   body
+//@     x := s.NextDay(n).NextDay(-n)
+//@     jdnMono(x.year, x.month, x.day, s.year, s.month, s.day)
+//@     jdnMono(s.year, s.month, s.day, x.year, x.month, x.day)
+//@     assert(sameSolar(x, s))
+
+//@ # day difference, minute difference, comparisons, hour stepping and weekday all agree with the same day count
+//@ ghost func stepAgree(s *Solar, n int, h int) [C04]
+//@   requires inYears(s.year) && jdnInRange(sjdn(s)+n) && -1000000 <= h && h <= 1000000 && jdnInRange(sjdn(s) + divf(s.hour+h, 24))
+//@   body
+//@     t := s.NextDay(n)
+//@     assert(t.Subtract(s) == n)
+//@     assert(s.Subtract(t) == -n)
+//@     assert(t.SubtractMinute(s) == n*1440)
+//@     assert(t.IsAfter(s) == (n > 0))
+//@     assert(t.IsBefore(s) == (n < 0))
+//@     assert(t.GetWeek() == modf(s.GetWeek()+n, 7))
+//@     u := s.NextHour(h)
+//@     assert(u.SubtractMinute(s) == h*60)
+//@     assert(u.IsAfter(s) == (h > 0))
+
+//@ # the calendar is Julian up to 1582-10-04 and Gregorian from 1582-10-15 with nothing in between
+//@ ghost func gapAndWeekday() [C04]
+//@   body
+//@     a := NewSolar(1582, 10, 4, 0, 0, 0)
+//@     b := a.NextDay(1)
+//@     jdnMono(b.year, b.month, b.day, 1582, 10, 15)
+//@     jdnMono(1582, 10, 15, b.year, b.month, b.day)
+//@     assert(b.year == 1582 && b.month == 10 && b.day == 15)
+//@     assert(a.GetWeek() == 4 && b.GetWeek() == 5)
+//@     c := b.NextDay(-1)
+//@     jdnMono(c.year, c.month, c.day, 1582, 10, 4)
+//@     jdnMono(1582, 10, 4, c.year, c.month, c.day)
+//@     assert(c.day == 4 && c.month == 10 && c.year == 1582)
+//@     assert(b.Subtract(a) == 1)
 
 //@ # ---------------------------------------------------------------- zodiac (C20)
 //@ # conventional first days, in cyclic order from Aries (index 0)
